@@ -87,9 +87,30 @@ class _Handle:
         self.cancels += 1
 
 
+_SIMPLE_DEFAULTS = {}
+
+
 def _bare_loop(asyncio_loop):
+    """an AsyncIOLoop around a recording double of the asyncio loop.  Fields of plain value (None / bool / number / text) that the real constructor sets are copied from a
+    real instance, so that a field added to the class later is there too (only the asyncio loop itself is replaced)"""
+    import asyncio
     import tornado.platform.asyncio as A
+    if not _SIMPLE_DEFAULTS:
+        aio = asyncio.new_event_loop()
+        try:
+            real = A.AsyncIOLoop(asyncio_loop=aio, make_current=False)
+            for k, v in vars(real).items():
+                if v is None or isinstance(v, (bool, int, float, str)):
+                    _SIMPLE_DEFAULTS[k] = v
+            real.close(all_fds=True)
+        except Exception:      # noqa: B902
+            _SIMPLE_DEFAULTS["__unavailable__"] = True
+            if not aio.is_closed():
+                aio.close()
     loop = object.__new__(A.AsyncIOLoop)
+    for k, v in _SIMPLE_DEFAULTS.items():
+        if not k.startswith("__"):
+            setattr(loop, k, v)
     loop.asyncio_loop = asyncio_loop
     return loop
 
@@ -113,6 +134,12 @@ def u_add_callback(c):
     def cb(*a, **kw):
         seen.append((a, kw))
         return "result"
+    # the calling thread may have run this very loop earlier (run_sync returned; the loop may be running elsewhere now): what counts is where the loop runs at the time of the call
+    earlier = c.choose("this-thread-ran-the-loop-earlier-and-added-a-callback-from-inside", [False, True])
+    if earlier:
+        with c.patched((A.asyncio, "get_running_loop", lambda: rec)):
+            c.fn(M, "BaseAsyncIOLoop.add_callback")(loop, lambda: None)
+        del rec.calls[:]
     with c.patched((A.asyncio, "get_running_loop", get_running_loop)):
         out = c.call(c.fn(M, "BaseAsyncIOLoop.add_callback"), loop, cb, *((1, 2) if with_args else ()), **({"k": 3} if with_args else {}))
     c.only_raises(out, ())
